@@ -205,6 +205,16 @@ def symbolic_mode_tree():
                 return bool(Poly.coerce(x).imag) if isinstance(x, Poly) else False
             return np.iscomplex(x)
 
+        def array(self, x, dtype=None, **kw):
+            # np.array(t, dtype=complex) inside the tree module: `complex` is shadowed there; symbolic arrays keep dtype=object (copy)
+            if dtype is sym_complex:
+                dtype = builtins.complex
+            elif dtype is sym_float:
+                dtype = builtins.float
+            if isinstance(x, np.ndarray) and x.dtype == object:
+                return x.copy()
+            return np.array(x, dtype=dtype, **kw)
+
     def sym_float(x=0):
         return x if isinstance(x, Poly) else builtins.float(x)
 
